@@ -241,8 +241,8 @@ func c18Main(args []string) int {
 	rep.Set("caps_hit", tot.Caps)
 	rep.Set("bound_completed", map[string]any{"preemptions": pre, "schedule_deviations": sd})
 	rep.Set("per_scenario", tot.PerScenario)
-	rep.Set("detector", "vector-clock happens-before over spawn, Mutex/RWMutex, channel, WaitGroup, atomic and (conservatively) per-object library-call edges; accesses = struct fields of the instrumented packages (maps and slices as one location per field), value-receiver calls = read of every field, package-level variables that any function mutates, and local variables captured by a goroutine literal")
-	rep.Assume("this is the explorer's own happens-before detector, exhaustive over the explored schedules, not the Go race detector over random seeds; it sees struct fields, mutated package-level variables and goroutine-captured locals of the instrumented packages and may miss races on individual slice elements or through pointers to locals handed to other functions")
+	rep.Set("detector", "vector-clock happens-before over spawn, Mutex/RWMutex, channel, WaitGroup, atomic and (conservatively) per-object library-call edges; accesses = struct fields of the instrumented packages (maps and slices as one location per field), value-receiver calls = read of every field, package-level variables that any function mutates, local variables captured by a goroutine literal, slice elements / append / copy targets, byte slices and pointers to module structs handed to uninstrumented or dynamic callees (= read of the content / of every field of the pointee)")
+	rep.Assume("this is the explorer's own happens-before detector, exhaustive over the explored schedules, not the Go race detector over random seeds; it sees struct fields, mutated package-level variables and goroutine-captured locals of the instrumented packages and may miss races through pointers to locals handed to other functions or on memory only uninstrumented code touches")
 	rep.Assume("every call on the same badger/bigcache object is treated as ordered (conservative: excludes false alarms)")
 	if tot.Diverged > 0 {
 		fmt.Fprintf(os.Stderr, "C18: %d executions diverged\n", tot.Diverged)
